@@ -4,6 +4,8 @@ package app
 
 import (
 	"bytes"
+	"compress/gzip"
+	"io"
 	"context"
 	"fmt"
 	"net/http"
@@ -226,3 +228,11 @@ func vGenRoot() string {
 
 // vTimeOffsetAsset: generated asset whose first VoD segment starts at a non-zero media time.
 func vTimeOffsetAsset(ap string) bool { return strings.HasPrefix(ap, "g_time_offset") }
+
+func vGunzip(b []byte) ([]byte, error) {
+	zr, err := gzip.NewReader(bytes.NewReader(b))
+	if err != nil {
+		return nil, err
+	}
+	return io.ReadAll(zr)
+}
